@@ -253,7 +253,10 @@ def check_netgen(case, res):
         r, c = size
         for i in range(r):
             for j in range(c):
-                m = n.get_module(f'M{i}_{j}')
+                try:
+                    m = n.get_module(f'M{i}_{j}')
+                except AssertionError:
+                    continue            # (missing module already reported above)
                 ex, ey = (0.5 + j) * W / c, (0.5 + i) * H / r
                 if m.center is None or abs(m.center.x - ex) > 1e-9 * W or abs(m.center.y - ey) > 1e-9 * H:
                     res.violation('says-different', case, dict(attrs, what='centres'), [ex, ey], repr(m.center))
